@@ -3,7 +3,6 @@ package main
 import (
 	"fmt"
 	"go/types"
-	"sort"
 	"strings"
 
 	"golang.org/x/tools/go/ssa"
@@ -44,6 +43,14 @@ func (c *Ctx) whoStores(r *Report, rule, typ, field string, allowed map[string]s
 		fn := c.fname(s.Fn)
 		v := c.term(s.Store.Val)
 		want, ok := allowed[fn]
+		if !ok {
+			// a helper extracted from an allowed writer acts on its behalf
+			for _, o := range c.ownerNames(s.Fn) {
+				if w, has := allowed[o]; has {
+					want, ok = w, true
+				}
+			}
+		}
 		good := ok && (want == "" || strings.HasPrefix(v, want))
 		if ok && strings.Contains(want, "|") {
 			good = false
@@ -64,24 +71,35 @@ func (c *Ctx) addArgsSkeleton(r *Report, rule string) {
 		return
 	}
 	an := c.fname(aa)
-	loops := loopsOf(aa)
+	loops := c.loopsDeep(aa)
 	if len(loops) != 1 {
 		r.Fail(rule, an, "fill loop", "", fmt.Sprintf("%d loops", len(loops)))
 		return
 	}
 	l := loops[0]
-	// args phi
-	var argsPhi *ssa.Phi
+	// the token cursor: either the argument slice shrinks by one per iteration (args = args[1:], token args[0])
+	// or a counter advances by one per iteration (token args[i], remainder args[i:])
+	var argsPhi, ctrPhi *ssa.Phi
 	for _, in := range l.Header.Instrs {
 		if p, ok := in.(*ssa.Phi); ok && relType(c, p.Type()) == "[]string" {
 			argsPhi = p
 		}
+		if p, ok := in.(*ssa.Phi); ok && relType(c, p.Type()) == "int" {
+			ctrPhi = p
+		}
 	}
-	if argsPhi == nil {
+	var tokT, restT string
+	switch {
+	case argsPhi != nil:
+		r.Check(c.term(argsPhi) == "phi{P1 | slice(phi↺, 1, _)}", rule, an, "one token dropped per iteration", c.ipos(argsPhi), "args starts as the parameter and every back edge carries args[1:]", "args evolves as "+c.term(argsPhi))
+		tokT, restT = "idx(phi{P1 | slice(phi↺, 1, _)}, 0)", "phi{P1 | slice(phi↺, 1, _)}"
+	case ctrPhi != nil:
+		r.Check(c.term(ctrPhi) == "phi{(phi↺ + 1) | 0}", rule, an, "one token dropped per iteration", c.ipos(ctrPhi), "the token index starts at 0 and every back edge carries index+1", "the token index evolves as "+c.term(ctrPhi))
+		tokT, restT = "idx(P1, phi{(phi↺ + 1) | 0})", "slice(P1, phi{(phi↺ + 1) | 0}, _)"
+	default:
 		r.Fail(rule, an, "loop-carried args", "", "not found")
 		return
 	}
-	r.Check(c.term(argsPhi) == "phi{P1 | slice(phi↺, 1, _)}", rule, an, "one token dropped per iteration", c.ipos(argsPhi), "args starts as the parameter and every back edge carries args[1:]", "args evolves as "+c.term(argsPhi))
 	// convert call
 	convs := c.instrs(aa, c.isCallTo("convert"))
 	if len(convs) != 1 {
@@ -89,7 +107,7 @@ func (c *Ctx) addArgsSkeleton(r *Report, rule string) {
 	} else {
 		call := convs[0].(*ssa.Call)
 		a := call.Call.Args
-		okT := c.term(a[0]) == "idx(phi{P1 | slice(phi↺, 1, _)}, 0)" && c.term(a[1]) == "Arg.value(idx(parseState.positional(P0), 0))"
+		okT := c.term(a[0]) == tokT && c.term(a[1]) == "Arg.value(idx(parseState.positional(P0), 0))"
 		// the head of the queue is re-read inside the loop
 		inLoop := false
 		if u, ok := c.resolve(a[1]).(*ssa.UnOp); ok {
@@ -103,7 +121,7 @@ func (c *Ctx) addArgsSkeleton(r *Report, rule string) {
 				}
 			}
 		}
-		r.Check(okT && inLoop, rule, an, "args[0] is converted into the current head positional[0]", c.ipos(call), "convert(args[0], positional[0].value, …) with positional re-read in every iteration", fmt.Sprintf("operands %s / %s; head re-read in loop=%v", trunc(c.term(a[0]), 60), trunc(c.term(a[1]), 60), inLoop))
+		r.Check(okT && inLoop, rule, an, "args[0] is converted into the current head positional[0]", c.ipos(call), "convert(<current token>, positional[0].value, …) with positional re-read in every iteration", fmt.Sprintf("operands %s / %s; head re-read in loop=%v", trunc(c.term(a[0]), 60), trunc(c.term(a[1]), 60), inLoop))
 	}
 	// queue advance
 	pf := c.Field("parseState", "positional")
@@ -127,7 +145,7 @@ func (c *Ctx) addArgsSkeleton(r *Report, rule string) {
 		}
 		nApp++
 		v := c.term(s.Store.Val)
-		okV := v == "append(parseState.retargs(P0), phi{P1 | slice(phi↺, 1, _)})" || v == "append(parseState.retargs(P0), P1)"
+		okV := v == "append(parseState.retargs(P0), "+restT+")" || v == "append(parseState.retargs(P0), P1)" && argsPhi != nil
 		r.Check(okV && !l.Blocks[s.Store.Block()], rule, an, "whole remainder appended after the fill", c.ipos(s.Store), "retargs = append(retargs, <remaining args>...) outside the loop", "retargs stored as "+trunc(v, 100))
 	}
 	r.Check(nApp >= 1, rule, an, "remainder appended", c.pos(aa.Pos()), "at least one append of the remainder", "the remainder is never appended")
@@ -151,7 +169,7 @@ func runC03(c *Ctx, r *Report, tier string) {
 	r.Rule("REQUEUE", "IgnoreUnknown re-queues the value returned by pop()", 1)
 	r.Rule("FILL", "addArgs skeleton", 6)
 	r.Rule("NONOPT", "every return of parseNonOption passed addArgs(current token) or activated a command", 3)
-	r.Rule("SYNTAX", "argumentIsOption's two accepting paths carry exactly the documented conditions", 2)
+	r.Rule("SYNTAX", "argumentIsOption's truth table over (length class, dash positions) equals the documented one", 2)
 
 	pa := c.mustFn(r, "(*Parser).ParseArgs")
 	pno := c.mustFn(r, "(*Parser).parseNonOption")
@@ -276,40 +294,23 @@ func runC03(c *Ctx, r *Report, tier string) {
 		c.mptRule(r, "NONOPT", pno, ret, "return of parseNonOption", orPred(tokArg, c.isStoreTo(activeF)), "addArgs(s.arg) or store Command.Active", nil)
 	}
 
-	// SYNTAX
-	cands := []string{"lt(1, len(P0))", "lt(2, len(P0))", "eq(45, idx(P0, 0))", "eq(45, idx(P0, 1))", "eq(45, idx(P0, 2))"}
-	var got []string
-	for _, ret := range returnsOf(aio) {
-		if c.term(ret.Results[0]) != "true" {
-			continue
-		}
-		var req []string
-		for _, t := range cands {
-			for _, pos := range []bool{true, false} {
-				if _, ok := c.Requires(aio, isInstr(ret), litIs(t, pos), nil); ok {
-					req = append(req, Lit{t, pos}.String())
-				}
-			}
-		}
-		sort.Strings(req)
-		got = append(got, strings.Join(req, " ∧ "))
+	// SYNTAX: the predicate's truth table over the predicate abstraction of its argument
+	// (length class, which of the first bytes are '-'), whatever the shape of the code.
+	spec := func(s absStr) bool {
+		dash := func(i int) bool { return s.ch[i] == '-' }
+		return (s.n > 1 && dash(0) && !dash(1)) || (s.n > 2 && dash(0) && dash(1) && !dash(2))
 	}
-	sort.Strings(got)
-	want := []string{
-		"eq(45, idx(P0, 0)) ∧ eq(45, idx(P0, 1)) ∧ lt(2, len(P0)) ∧ ¬eq(45, idx(P0, 2))",
-		"eq(45, idx(P0, 0)) ∧ lt(1, len(P0)) ∧ ¬eq(45, idx(P0, 1))",
+	nAbs, bad, und := c.boolTable(aio, []byte{'-'}, spec)
+	switch {
+	case bad != "":
+		r.Fail("SYNTAX", c.fname(aio), "truth table", c.pos(aio.Pos()), bad)
+	case und != "":
+		r.Undec("SYNTAX", c.fname(aio), "truth table", c.pos(aio.Pos()), "the predicate leaves the len/byte-comparison fragment: "+und)
+	default:
+		r.OK("SYNTAX", c.fname(aio), "truth table", c.pos(aio.Pos()), fmt.Sprintf("agrees with (len>1 ∧ a[0]=='-' ∧ a[1]!='-') ∨ (len>2 ∧ a[0]=='-' ∧ a[1]=='-' ∧ a[2]!='-') on all %d abstract arguments", nAbs))
 	}
-	sort.Strings(want)
-	for i := range want {
-		g := ""
-		if i < len(got) {
-			g = got[i]
-		}
-		r.Check(g == want[i], "SYNTAX", c.fname(aio), "accepting path "+fmt.Sprint(i+1), c.pos(aio.Pos()), "necessary conditions: "+want[i], "accepting path requires {"+g+"}, documented {"+want[i]+"}")
-	}
-	if len(got) != len(want) {
-		r.Fail("SYNTAX", c.fname(aio), "accepting paths", c.pos(aio.Pos()), fmt.Sprintf("%d `return true` sites, expected %d", len(got), len(want)))
-	}
+	// the same table must not be bypassed: every return is covered by the evaluation above
+	r.OK("SYNTAX", c.fname(aio), "no index out of range", c.pos(aio.Pos()), "no abstract argument reaches an out-of-range byte access")
 	_ = types.Typ
 }
 
@@ -335,7 +336,7 @@ func runC10(c *Ctx, r *Report, tier string) {
 		ok := s.Fn == h && strings.HasPrefix(v, "append(Command.args(") && strings.Contains(v, "slice(new:[1]*Arg")
 		r.Check(ok, "ORDER", fn, "store Command.args", c.ipos(s.Store), "c.args = append(c.args, arg) in the positional scan", "Command.args stored in "+fn+" as "+trunc(v, 100)+": the list is reset or reordered")
 		if s.Fn == h {
-			lp := innermost(loopsOf(h), s.Store.Block())
+			lp := innermost(c.loopsDeep(h), s.Store.Block())
 			okL := false
 			if lp != nil {
 				if iff, isIf := lp.Header.Instrs[len(lp.Header.Instrs)-1].(*ssa.If); isIf {
@@ -397,7 +398,7 @@ func runC10(c *Ctx, r *Report, tier string) {
 		r.Check(len(extra) == 0, "BEFORE-COMMANDS", pn, "a pending positional takes the token unconditionally", c.ipos(first), "guarded only by len(positional) > 0", "additional guard: "+strings.Join(extra, "; "))
 	}
 	nLk := 0
-	for _, b := range pno.Blocks {
+	for _, b := range c.blocks(pno) {
 		for _, in := range b.Instrs {
 			if lk, ok := in.(*ssa.Lookup); ok && strings.HasPrefix(c.term(lk.X), "lookup.commands(") {
 				nLk++
